@@ -78,6 +78,12 @@ CLAIMS = {
          "machines (where unit offsets differ from indices) equal the same reference; and the registration data written by deepRegister/wideRegister "
          "agree with those indices by value. Shapes beyond the bound are covered only through the uniformity of the metafunctions.",
          "type-level static_assert witnesses decided by clang -fsyntax-only + class-hierarchy facts from the extractor (static analysis)"),
+ "C18": ("Decides, on the uninstantiated patterns (so that members no machine uses are covered): that each of the 14 single-index accessors reduces, "
+         "after substituting its locals, to the canonical one-unit / one-bit-mask form; that whole-array operations are a single loop over all units "
+         "with the canonical body and nothing else; that the views test _width/8 full units plus the masked tail; that writer and reader of the bit "
+         "stream share the cursor atoms, reduce to the canonical chunk transfer and never narrow an index derived from the cursor; that buffer "
+         "comparison visits all bytes. Does not decide round-trip equality or the set-algebra laws as value equalities.",
+         "normal-form (definition-substituted, fully parenthesised) comparison of container leaf code over clang AST facts (static analysis)"),
  "C20": ("Decides that every float/double handed out is in [0,1) (known-bits argument on the reinterpreted bit pattern: sign 0, exponent = bias, mantissa = "
          "top bits of the integer draw; or the exact-scaling idiom), that the seeding draw rejects zero and fills all four state words, that generator "
          "members touch nothing but their own state, and that the next-state / output maps of splitmix64/32, xoshiro256+/128+/256**/128** and their "
